@@ -154,6 +154,10 @@ type Summ struct {
 	// event and return a bool or an error) are inlined whatever the depth bound, so that a
 	// guard extracted into a helper is seen as the guard it is.
 	AlwaysInline map[*ssa.Function]bool
+	// HelperInline, when set, names package-private helpers that are inlined even if they
+	// contain loops (their loops become loop events of the caller's summary): a body moved
+	// into a helper is analysed where it is used.
+	HelperInline func(fn *ssa.Function) bool
 
 	paths   []*PathSum
 	cut     string
@@ -1150,7 +1154,8 @@ func (s *Summ) call(fr *frame, x *ssa.Call, b *ssa.BasicBlock, i int, from *ssa.
 		return
 	}
 	// inline small loop-free module functions
-	if ev.Fn != nil && !s.NoInline[ev.Callee] && !st.onstack[ev.Fn] && s.inlinable(ev.Fn) &&
+	helper := ev.Fn != nil && s.HelperInline != nil && fr.depth < 4 && !s.NoInline[ev.Callee] && !st.onstack[ev.Fn] && ev.Fn.Blocks != nil && ev.Fn.Recover == nil && !hasDefer(ev.Fn) && s.HelperInline(ev.Fn)
+	if helper || ev.Fn != nil && !s.NoInline[ev.Callee] && !st.onstack[ev.Fn] && s.inlinable(ev.Fn) &&
 		((fr.depth < s.MaxDepth && (s.InlineFilter == nil || s.InlineFilter(ev.Fn))) || (s.AlwaysInline[ev.Fn] && fr.depth < s.MaxDepth+2)) {
 		callee := ev.Fn
 		s.nframes++
@@ -1268,6 +1273,25 @@ func (s *Summ) retypeCall(v *Val, t types.Type) *Val {
 	}
 	v.Typ = typeShort(t)
 	return s.alias(v, t)
+}
+
+func hasDefer(fn *ssa.Function) bool {
+	for _, b := range fn.Blocks {
+		for _, in := range b.Instrs {
+			if _, ok := in.(*ssa.Defer); ok {
+				return true
+			}
+		}
+	}
+	return false
+}
+
+// privateHelper: an unexported, named function or method of the same package as owner.
+func privateHelper(owner, fn *ssa.Function) bool {
+	if fn == nil || owner == nil || fn.Parent() != nil || fn.Pkg == nil || owner.Pkg == nil || fn.Pkg != owner.Pkg {
+		return false
+	}
+	return !token.IsExported(fn.Name())
 }
 
 func (s *Summ) inlinable(fn *ssa.Function) bool {
